@@ -125,7 +125,7 @@ def cmd_run(a):
             props = [meta["property"]] + (meta.get("also_check", []) if not a.all_checks else [f"C{i:02d}" for i in range(1, 21)])
             res = {}
             for p in dict.fromkeys(props):
-                rc, dt, info = run_check(d, p, a.tier)
+                rc, dt, info = run_check(d, p, a.tier, a.seed)
                 res[p] = rc
                 print(f"{meta['id']:44s} {p} {'CAUGHT' if rc == 1 else 'MISSED' if rc == 0 else 'HARNESS-ERR'} {dt:6.1f}s {info}")
                 sys.stdout.flush()
@@ -149,6 +149,6 @@ ap = argparse.ArgumentParser()
 sub = ap.add_subparsers(dest="cmd")
 v = sub.add_parser("verify"); v.add_argument("worktree"); v.add_argument("seed_id"); v.add_argument("property"); v.add_argument("--needs", default="")
 sub.add_parser("recheck")
-r = sub.add_parser("run"); r.add_argument("--only"); r.add_argument("--tier", default="quick"); r.add_argument("--all-checks", action="store_true"); r.add_argument("--save-witness", action="store_true")
+r = sub.add_parser("run"); r.add_argument("--only"); r.add_argument("--tier", default="quick"); r.add_argument("--all-checks", action="store_true"); r.add_argument("--save-witness", action="store_true"); r.add_argument("--seed", type=int, default=1)
 a = ap.parse_args()
 sys.exit(cmd_verify(a) if a.cmd == "verify" else cmd_recheck(a) if a.cmd == "recheck" else cmd_run(a))
